@@ -16,6 +16,7 @@ import (
 	"strconv"
 	"strings"
 	"testing"
+	"time"
 
 	"pgregory.net/rapid"
 
@@ -24,7 +25,7 @@ import (
 	"github.com/flamego/flamego/verifharness/internal/rt"
 )
 
-const rule = "fixture = an on-disk tree: public/ with files, sub-directories with and without index, a directory named like the index file, odd names (blank, '..x', '%41.txt'), and outside it secret.txt and public-evil/ - every file holds a unique marker. " +
+const rule = "fixture = an on-disk tree: public/ with files, sub-directories with and without index, a directory named like the index file, odd names (blank, '..x', '%41.txt'), two files of one name, size and modification time in two directories (requested one after the other one case in six), and outside it secret.txt and public-evil/ - every file holds a unique marker. " +
 	"case = options (Prefix spelled ''|p|/p|/p/|p/q|/|//, custom Index, SetETag, Expires, CacheControl; Directory given, left to its default 'public' below the working directory, or named (absolutely or relative to the working directory) through a symbolic link with a relative target while a directory of that relative name with other content exists below the working directory; passed as a value or as the element of a slice that was used for another directory before) x 1..6 requests: method in {GET, HEAD, POST, PUT, ''}, path assembled from pieces {file names, directory names, '..', '.', '', NUL, backslash, prefix look-alikes such as /px, /p-evil, /p.., <prefix><name> without a slash}, optional If-None-Match (learned from a first response), Range or If-Modified-Since, and one time in three a header a proxy may add or a client may forge (X-Forwarded-Prefix, X-Forwarded-Host, X-Original-URL, X-Sendfile, ...; 20 of them), which changes nothing. " +
 	"Oracle: an own resolver over the fixture manifest - not GET/HEAD, prefix mismatch (segment boundary), or Clean('/'+rest) neither a regular file nor a directory -> Static wrote nothing and the next handler produced the response; regular file -> 200 with exactly that file's marker (HEAD: empty body), or 304 with an empty body for a conditional request whose If-None-Match carries the ETag of an earlier response; directory without trailing slash -> 302 whose Location, resolved against the request path, is the cleaned request path plus '/' and which carries no file content (an index-less directory may also stay silent); directory with slash -> its index file if regular, else silent; never an outside marker in any response. " +
 	"non-trivial = a case with a path containing '..', a doubled slash, NUL or a backslash, a prefix look-alike, a directory, or a conditional request; distinct by case text"
@@ -69,8 +70,16 @@ func TestMain(m *testing.M) {
 		}
 	}
 	for _, f := range []string{"a.txt", "index.html", "home.htm", "sub/b.txt", "sub/index.html", "sub/deep/c.txt", "noindex/d.txt",
-		"dirindex/index.html/x.txt", "sp ace.txt", "..x", "%41.txt", "idx/home.htm", "p/inner.txt", "px", "e.txt"} {
+		"dirindex/index.html/x.txt", "sp ace.txt", "..x", "%41.txt", "idx/home.htm", "p/inner.txt", "px", "e.txt",
+		// two files of one name, one size and one modification time in two directories
+		"en/page.txt", "de/page.txt"} {
 		pub(f)
+	}
+	same := time.Date(2020, 2, 2, 2, 2, 2, 0, time.UTC)
+	for _, f := range []string{"en/page.txt", "de/page.txt"} {
+		if err := os.Chtimes(filepath.Join(root, "public", f), same, same); err != nil {
+			panic(err)
+		}
 	}
 	// a file shorter than the range some requests ask for (bytes=2-5)
 	write(filepath.Join("public", "tiny"), "ab")
@@ -559,6 +568,13 @@ func genCase(t *rapid.T) Case {
 		})
 		if rapid.IntRange(0, 2).Draw(t, "proxy") == 0 {
 			c.Reqs[len(c.Reqs)-1].Proxy = proxyHeaders[rapid.IntRange(0, len(proxyHeaders)-1).Draw(t, "proxyhdr")]
+		}
+	}
+	if rapid.IntRange(0, 5).Draw(t, "twins") == 0 {
+		// on purpose: the two files that agree in name, size and modification time, one after the other
+		order := [][2]string{{"en", "de"}, {"de", "en"}}[rapid.IntRange(0, 1).Draw(t, "twinorder")]
+		for _, d := range order {
+			c.Reqs = append(c.Reqs, Req{M: "GET", P: strconv.QuoteToASCII(pre + "/" + d + "/page.txt")})
 		}
 	}
 	return c
